@@ -56,14 +56,22 @@ theorem findInst_fork (ix : IState) (f : FUid) (nu : HUid) (i : Inst) (p : Nat)
   simp [Function.comp, this]
 
 
+/-- the HeadX record a forked head starts with (scores, scopes and catch labels of the forking head) -/
+def childRec (a : HeadX) : HeadX := { scores := a.scores, scopeUids := a.scopeUids, catchLabels := a.catchLabels }
+
+/-- the HeadX records after one head `nu` was forked from `h` -/
+def hxAfter (f : FUid) (h nu : HUid) (a : HeadX) (hx : List (Key × HeadX)) : List (Key × HeadX) :=
+  OMap.modify (f, h) (fun y => { y with childHeadUids := y.childHeadUids ++ [nu] }) (hx ++ [((f, nu), childRec a)])
+
 /-- what one iteration of the `for label in element.labels` loop is required to do (proved of the real loop body below) -/
-def ForkIter (body : String → List Key → M (ForInStep (List Key))) (f : FUid) (x : InstX) (cfg : FlowCfg) : Prop :=
+def ForkIter (body : String → List Key → M (ForInStep (List Key))) (f : FUid) (h : HUid) (a : HeadX) (x : InstX) (cfg : FlowCfg) : Prop :=
   ∀ (label : String) (acc : List Key) (s : VM) (i : Inst) (p : Nat),
     FlowAt s f i x cfg → cfg.label label = some p → p ≠ 0 → NotMatchAt cfg p → i.status.listening = true →
     uidOf (s.r.nextUid + 1) ∉ i.headUids →
     ∃ s1 hg, body label acc s = .ok (.yield (acc ++ [(f, uidOf (s.r.nextUid + 1))])) s1 ∧
       s1.ixs = s.ixs.apply (.fork f (uidOf (s.r.nextUid + 1)) none p none) hg ∧
-      s1.r.nextUid = s.r.nextUid + 1 ∧ s1.r.fx = s.r.fx ∧ s1.r.prog = s.r.prog
+      s1.r.nextUid = s.r.nextUid + 1 ∧ s1.r.fx = s.r.fx ∧ s1.r.prog = s.r.prog ∧
+      s1.r.hx = hxAfter f h (uidOf (s.r.nextUid + 1)) a s.r.hx
 
 def newKeys (f : FUid) (n : Nat) : Nat → List Key
   | 0 => []
@@ -73,23 +81,31 @@ def newView (n : Nat) : List Nat → List HCore
   | [] => []
   | p :: ps => (uidOf (n + 1), p, .active) :: newView (n + 1) ps
 
-theorem forkLoop_spec (body : String → List Key → M (ForInStep (List Key))) (f : FUid) (x : InstX) (cfg : FlowCfg)
-    (hiter : ForkIter body f x cfg) :
+theorem forkLoop_spec (body : String → List Key → M (ForInStep (List Key))) (f : FUid) (h : HUid) (a : HeadX) (x : InstX) (cfg : FlowCfg)
+    (hiter : ForkIter body f h a x cfg) :
     ∀ (lps : List (String × Nat)) (acc : List Key) (s : VM) (i : Inst),
       FlowAt s f i x cfg → (∀ lp ∈ lps, cfg.label lp.1 = some lp.2 ∧ lp.2 ≠ 0 ∧ NotMatchAt cfg lp.2) →
       i.status.listening = true → (∀ m, m > s.r.nextUid → uidOf m ∉ i.headUids) →
       ∃ s' i', forIn (lps.map (·.1)) acc body s = .ok (acc ++ newKeys f s.r.nextUid lps.length) s' ∧
         FlowAt s' f i' x cfg ∧ hview i' = hview i ++ newView s.r.nextUid (lps.map (·.2)) ∧
-        s'.r.nextUid = s.r.nextUid + lps.length ∧ i'.status = i.status := by
+        s'.r.nextUid = s.r.nextUid + lps.length ∧ i'.status = i.status ∧
+        -- the HeadX records: the forking head lists the new heads as its children, the new heads have none
+        (∀ a0, OMap.lookup (f, h) s.r.hx = some a0 → (∀ m, m > s.r.nextUid → uidOf m ≠ h) →
+          (∀ m, m > s.r.nextUid → OMap.lookup (f, uidOf m) s.r.hx = none) →
+          OMap.lookup (f, h) s'.r.hx = some { a0 with childHeadUids := a0.childHeadUids ++ (newKeys f s.r.nextUid lps.length).map (·.2) } ∧
+          (∀ k ∈ newKeys f s.r.nextUid lps.length, ((OMap.lookup k s'.r.hx).getD {}).childHeadUids = []) ∧
+          (∀ k : Key, k ≠ (f, h) → (∀ m, m > s.r.nextUid → k ≠ (f, uidOf m)) → OMap.lookup k s'.r.hx = OMap.lookup k s.r.hx)) := by
   intro lps
   induction lps with
   | nil =>
     intro acc s i F _ _ _
-    exact ⟨s, i, by simp [newKeys, pure, EStateM.pure], F, by simp [newView], rfl, rfl⟩
+    refine ⟨s, i, by simp [newKeys, pure, EStateM.pure], F, by simp [newView], rfl, rfl, ?_⟩
+    intro a0 ha0 _ _
+    exact ⟨by simpa [newKeys] using ha0, by intro k hk; simp [newKeys] at hk, fun _ _ _ => rfl⟩
   | cons lp lps ih =>
     intro acc s i F hl hlist hfresh
     obtain ⟨h1, h2, h3⟩ := hl lp (by simp)
-    obtain ⟨s1, hg, hb, hix, hn, hfx, hprog⟩ := hiter lp.1 acc s i lp.2 F h1 h2 h3 hlist (hfresh _ (by omega))
+    obtain ⟨s1, hg, hb, hix, hn, hfx, hprog, hhx1⟩ := hiter lp.1 acc s i lp.2 F h1 h2 h3 hlist (hfresh _ (by omega))
     obtain ⟨i1, hi1, hv1, hs1⟩ := findInst_fork s.ixs.ix f (uidOf (s.r.nextUid + 1)) i lp.2 F.hi h2 (hfresh _ (by omega))
     have F1 : FlowAt s1 f i1 x cfg :=
       { hi := by rw [hix]; exact hi1, hx := by rw [hfx]; exact F.hx, hc := by rw [hprog]; exact F.hc }
@@ -102,14 +118,45 @@ theorem forkLoop_spec (body : String → List Key → M (ForInStep (List Key))) 
       · simp only [List.map_cons, List.map_nil, List.mem_singleton] at h
         have := uidOf_inj h
         omega
-    obtain ⟨s', i', hrun, F', hv', hn', hs'⟩ := ih (acc ++ [(f, uidOf (s.r.nextUid + 1))]) s1 i1 F1
+    obtain ⟨s', i', hrun, F', hv', hn', hs', hhx'⟩ := ih (acc ++ [(f, uidOf (s.r.nextUid + 1))]) s1 i1 F1
       (fun q hq => hl q (by simp [hq])) (by rw [hs1]; exact hlist) hfresh1
-    refine ⟨s', i', ?_, F', ?_, by rw [hn', hn]; simp; omega, by rw [hs', hs1]⟩
+    refine ⟨s', i', ?_, F', ?_, by rw [hn', hn]; simp; omega, by rw [hs', hs1], ?_⟩
     · simp only [List.map_cons, List.forIn_cons, bind, EStateM.bind, hb]
       rw [hrun, hn]
       simp [newKeys]
     · rw [hv', hv1, hn]
       simp [newView]
+    · intro a0 ha0 hhne hfx0
+      -- the records after this iteration
+      have hnu_ne : (f, uidOf (s.r.nextUid + 1)) ≠ (f, h) := by
+        intro e; exact hhne (s.r.nextUid + 1) (by omega) (by simpa using e)
+      have hl_h : OMap.lookup (f, h) s1.r.hx = some { a0 with childHeadUids := a0.childHeadUids ++ [uidOf (s.r.nextUid + 1)] } := by
+        rw [hhx1, hxAfter, OMap.lookup_modify]
+        simp only [if_true, OMap.lookup_append_single, ha0, Option.map_some]
+      have hl_nu : OMap.lookup (f, uidOf (s.r.nextUid + 1)) s1.r.hx = some (childRec a) := by
+        rw [hhx1, hxAfter, OMap.lookup_modify]
+        simp only [hnu_ne, if_false, OMap.lookup_append_single, hfx0 _ (by omega : s.r.nextUid + 1 > s.r.nextUid), if_true]
+      have hl_other : ∀ k : Key, k ≠ (f, h) → k ≠ (f, uidOf (s.r.nextUid + 1)) → OMap.lookup k s1.r.hx = OMap.lookup k s.r.hx := by
+        intro k hk1 hk2
+        rw [hhx1, hxAfter, OMap.lookup_modify]
+        simp only [hk1, if_false, OMap.lookup_append_single, hk2]
+        cases OMap.lookup k s.r.hx <;> rfl
+      obtain ⟨r1, r2, r3⟩ := hhx' _ hl_h (fun m hm => hhne m (by omega))
+        (fun m hm => by
+          rw [hl_other _ (by intro e; exact hhne m (by omega) (by simpa using e))
+            (by intro e; have := uidOf_inj (by simpa using e : uidOf m = uidOf (s.r.nextUid + 1)); omega)]
+          exact hfx0 m (by omega))
+      refine ⟨?_, ?_, ?_⟩
+      · rw [r1, hn]; simp [newKeys, List.append_assoc, List.length_cons]
+      · intro k hk
+        simp only [List.length_cons, newKeys, List.mem_cons] at hk
+        rcases hk with rfl | hk
+        · rw [r3 _ hnu_ne (fun m hm e => by
+            have := uidOf_inj (by simpa using e : uidOf (s.r.nextUid + 1) = uidOf m); omega), hl_nu]
+          rfl
+        · exact r2 k (by rw [hn]; exact hk)
+      · intro k hk1 hk2
+        rw [r3 k hk1 (fun m hm => hk2 m (by omega)), hl_other k hk1 (hk2 _ (by omega))]
 
 
 theorem lookup_modify_self {α : Type} (k : String) (g : α → α) : ∀ (l : List (String × α)) (v : α),
@@ -128,7 +175,10 @@ theorem slideStep_fork (fuel : Nat) (s : VM) (f : FUid) (h : HUid) (i : Inst) (x
     ∃ s' i' x', slideStep fuel f h s = .ok (true, newKeys f s.r.nextUid lps.length) s' ∧ FlowAt s' f i' x' cfg ∧
       x'.forkUids = OMap.insert u h x.forkUids ∧ x'.ctxOwner = x.ctxOwner ∧
       hview i' = (hview i).map (setStCore h .inactive) ++ newView s.r.nextUid (lps.map (·.2)) ∧
-      s'.r.nextUid = s.r.nextUid + lps.length ∧ i'.status = i.status := by
+      s'.r.nextUid = s.r.nextUid + lps.length ∧ i'.status = i.status ∧
+      (∀ a0, OMap.lookup (f, h) s.r.hx = some a0 → (∀ m, m > s.r.nextUid → OMap.lookup (f, uidOf m) s.r.hx = none) →
+        OMap.lookup (f, h) s'.r.hx = some { a0 with childHeadUids := a0.childHeadUids ++ (newKeys f s.r.nextUid lps.length).map (·.2) } ∧
+        (∀ k ∈ newKeys f s.r.nextUid lps.length, ((OMap.lookup k s'.r.hx).getD {}).childHeadUids = [])) := by
   have hnm : NotMatchAt cfg hd.pos := notMatchAt_of cfg hd.pos _ H.hlt hel rfl
   obtain ⟨hg0, h0⟩ := setHeadStatus_ok s f h i x cfg hd .inactive H.toFlowAt H.hh H.hst hnm
   have hi1 := findInst_setStatus s.ixs.ix f h i hd .inactive none H.hi H.hh H.hst
@@ -141,7 +191,7 @@ theorem slideStep_fork (fuel : Nat) (s : VM) (f : FUid) (h : HUid) (i : Inst) (x
     H.hx, getCfg, H.hc, getHead?, getIx, H.hi, Option.bind, H.hh, hge, hin, Bool.or_false, Bool.false_eq_true, if_false, hel, h0,
     modInstX, modifyRest, modify, modifyGet, MonadStateOf.modifyGet, EStateM.modifyGet, getHeadX]
   generalize hbody : (fun (label : String) (__s : List Key) => _) = body
-  have hiter : ForkIter body f x' cfg := by
+  have hiter : ForkIter body f h ((OMap.lookup (f, h) s.r.hx).getD {}) x' cfg := by
     intro label acc t it p Ft hlab hp0 hnmp hlis hfr
     have hgf : (Op.fork f (uidOf (t.r.nextUid + 1)) none p none).guard t.ixs.ix = true := by
       have hnd : it.status.done = false := by
@@ -161,10 +211,12 @@ theorem slideStep_fork (fuel : Nat) (s : VM) (f : FUid) (h : HUid) (i : Inst) (x
     have e2 : t'.r.fx = t.r.fx := by rw [← ht']
     have e3 : t'.r.prog = t.r.prog := by rw [← ht']
     have e4 : t'.r.nextUid = t.r.nextUid + 1 := by rw [← ht']
+    have e5 : t'.r.hx = hxAfter f h (uidOf (t.r.nextUid + 1)) ((OMap.lookup (f, h) s.r.hx).getD {}) t.r.hx := by
+      rw [← ht']; rfl
     have hgf' : (Op.fork f (uidOf (t.r.nextUid + 1)) none p none).guard t'.ixs.ix = true := by rw [e1]; exact hgf
     rw [hnf t' e1 e2 e3]
     simp only [bind, EStateM.bind, applyOp, hgf', dite_true, pure, EStateM.pure]
-    exact ⟨_, by rw [← e1]; exact hgf', rfl, by simp only [e1], e4, e2, e3⟩
+    exact ⟨_, by rw [← e1]; exact hgf', rfl, by simp only [e1], e4, e2, e3, e5⟩
   generalize hs2 : ({ ixs := s.ixs.apply (.setStatus f h .inactive none) hg0, r := _ } : VM) = s2
   have F2 : FlowAt s2 f (i.modifyHead h fun y => { y with status := .inactive, elem := none }) x' cfg := by
     rw [← hs2]
@@ -174,10 +226,21 @@ theorem slideStep_fork (fuel : Nat) (s : VM) (f : FUid) (h : HUid) (i : Inst) (x
     intro m hm
     rw [headUids_modifyHead i h (fun y => { y with status := .inactive, elem := none }) (fun _ => rfl)]
     exact hfresh m (by omega)
-  obtain ⟨s', i', hrun, F', hv', hn', hst'⟩ := forkLoop_spec body f x' cfg hiter lps [] s2 _ F2 hl hlist hfresh2
-  refine ⟨s', i', x', ?_, F', rfl, rfl, ?_, by rw [hn', hn2], by rw [hst']; rfl⟩
+  have hhx2 : s2.r.hx = s.r.hx := by rw [← hs2]
+  obtain ⟨s', i', hrun, F', hv', hn', hst', hhx'⟩ := forkLoop_spec body f h _ x' cfg hiter lps [] s2 _ F2 hl hlist hfresh2
+  refine ⟨s', i', x', ?_, F', rfl, rfl, ?_, by rw [hn', hn2], by rw [hst']; rfl, ?_⟩
   · rw [hrun, hn2]; simp
   · rw [hv', hview_setStatus, hn2]
+  · intro a0 ha0 hfx0
+    have hhne : ∀ m, m > s2.r.nextUid → uidOf m ≠ h := by
+      intro m hm e
+      have hmem : h ∈ i.headUids := by
+        simp only [Inst.headUids, List.mem_map]
+        exact ⟨hd, List.mem_of_find?_eq_some H.hh, findHead_uid H.hh⟩
+      exact hfresh m (by omega) (e ▸ hmem)
+    obtain ⟨r1, r2, _⟩ := hhx' a0 (by rw [hhx2]; exact ha0) hhne (fun m hm => by rw [hhx2]; exact hfx0 m (by omega))
+    rw [hn2] at r1 r2
+    exact ⟨r1, r2⟩
 
 /-! ### the new heads reach their `match` elements; the whole fork segment -/
 
@@ -306,7 +369,8 @@ theorem advanceNews_spec (fuel : Nat) (f : FUid) (x : InstX) (cfg : FlowCfg) :
 theorem slideStep_catch_push (fuel : Nat) (s : VM) (f : FUid) (h : HUid) (i : Inst) (x : InstX) (cfg : FlowCfg) (hd : Head) (l : String)
     (H : HeadAt s f h i x cfg hd) (hel : cfg.elements[hd.pos]! = .catchFail (some l)) (hnm : NotMatchAt cfg (hd.pos + 1)) :
     ∃ s1 hg, slideStep fuel f h s = .ok (false, []) s1 ∧ s1.ixs = s.ixs.apply (.setPos f h (hd.pos + 1) none) hg ∧
-      s1.r.fx = s.r.fx ∧ s1.r.prog = s.r.prog ∧ s1.r.nextUid = s.r.nextUid := by
+      s1.r.fx = s.r.fx ∧ s1.r.prog = s.r.prog ∧ s1.r.nextUid = s.r.nextUid ∧
+      s1.r.hx = OMap.modify (f, h) (fun y => { y with catchLabels := y.catchLabels ++ [l] }) s.r.hx := by
   have hge : decide (hd.pos ≥ cfg.elements.size) = false := by simp; exact H.hlt
   have hin : decide (hd.status = HeadStatus.inactive) = false := by simp [H.hst]
   unfold slideStep
@@ -314,6 +378,7 @@ theorem slideStep_catch_push (fuel : Nat) (s : VM) (f : FUid) (h : HUid) (i : In
     H.hx, getCfg, H.hc, getHead?, getIx, H.hi, Option.bind, H.hh, hge, hin, Bool.or_false, Bool.false_eq_true, if_false, hel,
     modHeadX, modifyRest, modify, modifyGet, MonadStateOf.modifyGet, EStateM.modifyGet]
   generalize ht : ({ ixs := s.ixs, r := _ } : VM) = t
+  have e5 : t.r.hx = OMap.modify (f, h) (fun y => { y with catchLabels := y.catchLabels ++ [l] }) s.r.hx := by rw [← ht]
   have e1 : t.ixs = s.ixs := by rw [← ht]
   have e2 : t.r.fx = s.r.fx := by rw [← ht]
   have e3 : t.r.prog = s.r.prog := by rw [← ht]
@@ -321,7 +386,7 @@ theorem slideStep_catch_push (fuel : Nat) (s : VM) (f : FUid) (h : HUid) (i : In
   have Ft : FlowAt t f i x cfg := { hi := by rw [e1]; exact H.hi, hx := by rw [e2]; exact H.hx, hc := by rw [e3]; exact H.hc }
   obtain ⟨hg, hset⟩ := setHeadPos_ok t f h i x cfg hd (hd.pos + 1) Ft H.hh (by omega) hnm
   rw [hset]
-  exact ⟨_, by rw [← e1]; exact hg, rfl, by simp only [e1], e2, e3, e4⟩
+  exact ⟨_, by rw [← e1]; exact hg, rfl, by simp only [e1], e2, e3, e4, e5⟩
 
 def newsOf (n : Nat) : List Nat → List (HUid × Nat)
   | [] => []
@@ -376,9 +441,13 @@ theorem fork_segment (fuel : Nat) (s : VM) (f : FUid) (h : HUid) (i : Inst) (x :
       runMembers (fuel + 1) f ((newKeys f s.r.nextUid lps.length).map (·.2)) s1 = .ok () s2 ∧
       FlowAt s2 f i2 x' cfg ∧ x'.ctxOwner = x.ctxOwner ∧
       hview i2 = (hview i).map (setCore h (hd.pos + 1) .inactive) ++
-        (newView s.r.nextUid (lps.map (·.2))).map (fun t => (t.1, t.2.1 + 1, t.2.2)) := by
+        (newView s.r.nextUid (lps.map (·.2))).map (fun t => (t.1, t.2.1 + 1, t.2.2)) ∧
+      x'.forkUids = OMap.insert u h x.forkUids ∧ i2.status = i.status ∧ s2.r.nextUid = s.r.nextUid + lps.length ∧
+      (∀ a0, OMap.lookup (f, h) s.r.hx = some a0 → (∀ m, m > s.r.nextUid → OMap.lookup (f, uidOf m) s.r.hx = none) →
+        ((OMap.lookup (f, h) s2.r.hx).getD {}).childHeadUids = a0.childHeadUids ++ (newKeys f s.r.nextUid lps.length).map (·.2) ∧
+        (∀ k ∈ newKeys f s.r.nextUid lps.length, ((OMap.lookup k s2.r.hx).getD {}).childHeadUids = [])) := by
   have hnmf : NotMatchAt cfg (hd.pos + 1) := notMatchAt_of cfg (hd.pos + 1) _ hsz hfork rfl
-  obtain ⟨sa, hga, hstepa, hixa, hfxa, hproga, hna⟩ := slideStep_catch_push (fuel + 1) s f h i x cfg hd fl H hcatch hnmf
+  obtain ⟨sa, hga, hstepa, hixa, hfxa, hproga, hna, hhxa⟩ := slideStep_catch_push (fuel + 1) s f h i x cfg hd fl H hcatch hnmf
   have hia := findInst_setPos s.ixs.ix f h i hd (hd.pos + 1) none H.hi H.hh (by omega)
   have Ha : HeadAt sa f h (i.modifyHead h fun y => { y with pos := hd.pos + 1, elem := none }) x cfg { hd with pos := hd.pos + 1, elem := none } :=
     { hi := by rw [hixa]; exact hia, hx := by rw [hfxa]; exact H.hx, hc := by rw [hproga]; exact H.hc,
@@ -387,7 +456,7 @@ theorem fork_segment (fuel : Nat) (s : VM) (f : FUid) (h : HUid) (i : Inst) (x :
     intro m hm
     rw [headUids_modifyHead i h (fun y => { y with pos := hd.pos + 1, elem := none }) (fun _ => rfl)]
     exact hfresh m (by omega)
-  obtain ⟨s1, i1, x', hstepb, F1, _, hown, hv1, hn1, hst1⟩ := slideStep_fork fuel sa f h _ x cfg _ u lps Ha hfork hl hlis hfresha
+  obtain ⟨s1, i1, x', hstepb, F1, hfux, hown, hv1, hn1, hst1, hhxf⟩ := slideStep_fork fuel sa f h _ x cfg _ u lps Ha hfork hl hlis hfresha
   -- the view after the fork
   have hpre : (hview (i.modifyHead h fun y => { y with pos := hd.pos + 1, elem := none })).map (setStCore h .inactive)
       = (hview i).map (setCore h (hd.pos + 1) .inactive) := by
@@ -419,14 +488,32 @@ theorem fork_segment (fuel : Nat) (s : VM) (f : FUid) (h : HUid) (i : Inst) (x :
     obtain ⟨lp, hlp, e⟩ := List.mem_map.1 hp
     rw [← e]; exact hnews lp hlp
   have hlis1 : i1.status.listening = true := by rw [hst1]; exact hlis
-  obtain ⟨s2, i2, hrun, F2, _, hv2, _⟩ := advanceNews_spec fuel f x' cfg (newsOf s.r.nextUid (lps.map (·.2)))
+  obtain ⟨s2, i2, hrun, F2, hr2, hv2, hst2⟩ := advanceNews_spec fuel f x' cfg (newsOf s.r.nextUid (lps.map (·.2)))
     ((hview i).map (setCore h (hd.pos + 1) .inactive)) s1 i1 F1 hlis1 hnd1 hv1 hshape
-  refine ⟨s1, s2, i2, x', ?_, ?_, F2, hown, ?_⟩
+  refine ⟨s1, s2, i2, x', ?_, ?_, F2, hown, ?_, hfux, by rw [hst2, hst1]; rfl, by rw [hr2, hn1, hna], ?_⟩
   · simp only [slide, slideLoop, bind, EStateM.bind, hstepa, hstepb, Bool.false_eq_true, if_false, if_true, pure, EStateM.pure,
       List.nil_append, hna]
   · rw [← List.length_map (f := fun (lp : String × Nat) => lp.2), newKeys_snd]
     exact hrun
   · rw [hv2, newView_eq, List.map_map]
     rfl
+  · intro a0 ha0 hfx0
+    have hla : OMap.lookup (f, h) sa.r.hx = some { a0 with catchLabels := a0.catchLabels ++ [fl] } := by
+      rw [hhxa, OMap.lookup_modify]; simp [ha0]
+    have hfxa0 : ∀ m, m > sa.r.nextUid → OMap.lookup (f, uidOf m) sa.r.hx = none := by
+      intro m hm
+      rw [hhxa, OMap.lookup_modify]
+      have hne : (f, uidOf m) ≠ (f, h) := by
+        intro e
+        have hmem : h ∈ i.headUids := by
+          simp only [Inst.headUids, List.mem_map]
+          exact ⟨hd, List.mem_of_find?_eq_some H.hh, findHead_uid H.hh⟩
+        exact hfresh m (by omega) ((by simpa using e : uidOf m = h) ▸ hmem)
+      simp only [hne, if_false]
+      exact hfx0 m (by omega)
+    obtain ⟨r1, r2⟩ := hhxf _ hla hfxa0
+    rw [hna] at r1 r2
+    rw [hr2]
+    exact ⟨by rw [r1]; rfl, r2⟩
 
 end NemoVerif.CoreVM
